@@ -1,7 +1,9 @@
 import Driver.Sexp
-import Pcore.Model.StringHash
-import Pcore.Model.HashImpl
-import Pcore.Model.ArrayImpl
+import Pcore.Model.StringHashFacts
+import Pcore.Model.HashFacts
+import Pcore.Model.ArrayPool
+import Pcore.Generated.StringHashFacts
+import Pcore.Generated.HashOps
 /-!
 Driver ops for C09 (syntax in harness/c09/c09.go): one line is a whole history.
 
@@ -9,11 +11,12 @@ Driver ops for C09 (syntax in harness/c09/c09.go): one line is a whole history.
   `hash <step>*`  types.Hash pool        → `Pcore.Coll.Hash` with `key = id` on canonical value texts
   `arr <step>*`   types.Array pool       → `Pcore.Coll.Arr`  on canonical value texts
 
+The models are the ones driven by the regenerated fact tables (`stepSHT shFacts`, `Hash.mergeT hashFacts`, …).
 Keys and values travel as their canonical text (`1`, `x31`, `(a 1)`): two values are equal iff their texts are
 equal, so `px.ToKey` is modelled by the identity on texts (that `ToKey` respects equality is property C07).
 -/
 namespace C09
-open Sx Pcore.Coll
+open Sx Pcore.Coll Pcore.Generated
 
 def sp (xs : List String) : String := " ".intercalate xs
 
@@ -64,6 +67,8 @@ inductive ShStep where
   | op (name : String) (o : SOp String)
   | swap
   | empty
+  | equals
+  | views
 
 def shPair? : Sexp → Option (String × String)
   | .list [k, v] => do let k' ← keyAtom? k; let v' ← intAtom? v; pure (k', v')
@@ -80,6 +85,8 @@ def shStep? : Sexp → Option (ShStep × List String)
   | .list [.atom "freeze"] => some (.op "freeze" .freeze, [])
   | .list [.atom "swap"] => some (.swap, [])
   | .list [.atom "empty"] => some (.empty, [])
+  | .list [.atom "equals"] => some (.equals, [])
+  | .list [.atom "views"] => some (.views, [])
   | _ => none
 
 def getStr : Out String → String
@@ -124,8 +131,18 @@ def runSh (steps : List ShStep) (uni : List String) : String := Id.run do
       | none => res := "skip"
       | some o => old := some cur; cur := o; res := "swap"
     | .empty => old := some cur; cur := SH.emptyFrozen; res := "empty"
+    | .equals =>
+      match old with
+      | none => res := "skip"
+      | some o =>
+        match cur.equals o, o.equals cur with
+        | some a, some b => res := "equals=" ++ boolStr a ++ "," ++ boolStr b
+        | _, _ => res := "equals=fault"; bad := true
+    | .views =>
+      res := "views=K[" ++ sp cur.keys ++ "] V[" ++ sp cur.values ++ "] " ++ boolStr cur.empty
+        ++ boolStr (cur.allPair fun _ v => v != "1") ++ boolStr (cur.anyPair fun _ v => v == "1")
     | .op name op =>
-      let r := stepSH cur op
+      let r := stepSHT shFacts cur op
       match op with
       | .copy => old := some cur
       | .merge _ => old := some cur
@@ -162,6 +179,11 @@ inductive HStep where
   | get (op : String) (i : Nat) (k : String)
   | mput (i : Nat) (k v : String)
   | mputall (i j : Nat)
+  | slice (i x y : Nat)
+  | filter (sel : Bool) (i : Nat) (ks : List String)
+  | sort (i : Nat)
+  | eachSlice (i : Nat) (n : Int)
+  | mapKeys (i : Nat) (k : String)
 
 def hPair? : Sexp → Option ((String × String) × Bool)
   | .list [k, v] => do let k' ← valStr k; let v' ← valStr v; pure ((k', v'), plainText k && plainText v)
@@ -180,6 +202,14 @@ def hStep? : Sexp → Option (HStep × List String)
   | .list [.atom "get4", i, k] => do let i' ← ref? i; let k' ← keyAtom? k; pure (.get "get4" i' k', [k'])
   | .list [.atom "deleteAll", i, .list ks] => do
       let i' ← ref? i; let ks' ← ks.mapM valStr; pure (.deleteAll i' ks', ks')
+  | .list [.atom "select", i, .list ks] => do
+      let i' ← ref? i; let ks' ← ks.mapM valStr; pure (.filter true i' ks', ks')
+  | .list [.atom "reject", i, .list ks] => do
+      let i' ← ref? i; let ks' ← ks.mapM valStr; pure (.filter false i' ks', ks')
+  | .list [.atom "slice", i, x, y] => do let i' ← ref? i; let x' ← ref? x; let y' ← ref? y; pure (.slice i' x' y', [])
+  | .list [.atom "sort", i] => do let i' ← ref? i; pure (.sort i', [])
+  | .list [.atom "eachSlice", i, n] => do let i' ← ref? i; let n' ← n.int?; pure (.eachSlice i' n', [])
+  | .list [.atom "mapKeys", i, k] => do let i' ← ref? i; let k' ← valStr k; pure (.mapKeys i' k', [k'])
   | .list (.atom op :: ps) =>
     if op = "wrap" ∨ op = "parse" ∨ op = "parsea" ∨ op = "build" then do
       let ps' ← ps.mapM hPair?
@@ -220,7 +250,7 @@ def runHash (steps : List HStep) (uni : List String) : String := Id.run do
       match pool[i]? with
       | none => res := "bad-ref"
       | some (h, m) =>
-        let (h', r) := h.merge id [(k, v)]
+        let (h', r) := h.mergeT hashFacts id [(k, v)]
         pool := pool.set! i (h', m)
         match r with
         | some n => pool := pool.push (n, false); res := "put"; made := some (pool.size - 1)
@@ -228,7 +258,7 @@ def runHash (steps : List HStep) (uni : List String) : String := Id.run do
     | .merge i j =>
       match pool[i]?, pool[j]? with
       | some (h, m), some (o, _) =>
-        let (h', r) := h.merge id o.entries
+        let (h', r) := h.mergeT hashFacts id o.entries
         pool := pool.set! i (h', m)
         match r with
         | some n => pool := pool.push (n, false); res := "merge"; made := some (pool.size - 1)
@@ -262,19 +292,56 @@ def runHash (steps : List HStep) (uni : List String) : String := Id.run do
         | some (some v) => res := s!"{op}={v},t,{v},t"; made := some i
         | some none => res := s!"{op}=_,f,-1,f"; made := some i
         | none => res := op; fault := true
+    | .slice i x y =>
+      match pool[i]? with
+      | none => res := "bad-ref"
+      | some (h, m) =>
+        if m then res := "skip" else
+        match h.slice x y with
+        | some n => pool := pool.push (n, false); res := "slice"; made := some (pool.size - 1)
+        | none => res := "skip"             -- bounds outside the value: a caller error, outside the property
+    | .filter sel i ks =>
+      match pool[i]? with
+      | none => res := "bad-ref"
+      | some (h, m) =>
+        if m then res := "skip" else
+        let p := fun (e : String × String) => ks.contains e.1
+        let n := if sel then h.selectPairs p else h.rejectPairs p
+        pool := pool.push (n, false); res := (if sel then "select" else "reject"); made := some (pool.size - 1)
+    | .sort i =>
+      match pool[i]? with
+      | none => res := "bad-ref"
+      | some (h, m) =>
+        if m then res := "skip" else
+        pool := pool.push (h.sort (fun x y => decide (x ≤ y)), false); res := "sort"; made := some (pool.size - 1)
+    | .mapKeys i k =>
+      match pool[i]? with
+      | none => res := "bad-ref"
+      | some (h, m) =>
+        if m then res := "skip" else
+        -- `MapEntries`: `mapped[i] = mapper(e)`, then `WrapHash(mapped)` (no check for equal keys)
+        pool := pool.push (Hash.wrap (h.entries.map fun e => (k, e.2)), false); res := "mapKeys"; made := some (pool.size - 1)
+    | .eachSlice i n =>
+      match pool[i]? with
+      | none => res := "bad-ref"
+      | some (h, _) =>
+        match h.eachSlice n with
+        | none => res := "eachSlice=illegal"
+        | some cs =>
+          res := "eachSlice=[" ++ sp (cs.map fun c => "(" ++ sp (c.map fun e => e.1 ++ "=" ++ e.2) ++ ")") ++ "]"
     | .mput i k v =>
       match pool[i]? with
       | none => res := "bad-ref"
       | some (h, m) =>
         if !m then res := "skip" else
-        match h.putM id k v with
+        match h.putAllT hashFacts id [(k, v)] with
         | some n => pool := pool.set! i (n, true); res := "mput"; made := some i
         | none => res := "mput"; fault := true
     | .mputall i j =>
       match pool[i]?, pool[j]? with
       | some (h, m), some (o, _) =>
         if !m then res := "skip" else
-        match h.putAll id o.entries with
+        match h.putAllT hashFacts id o.entries with
         | some n => pool := pool.set! i (n, true); res := "mputall"; made := some i
         | none => res := "mputall"; fault := true
       | _, _ => res := "bad-ref"
@@ -305,75 +372,70 @@ def execHash (steps : List Sexp) : String :=
 
 /-! ### Array -/
 
-inductive AStep where
-  | lit (vs : List String)
-  | add (i : Nat) (v : String)
-  | addAll (i j : Nat)
-  | delete (i : Nat) (v : String)
-  | deleteAll (i j : Nat)
-  | slice (i a b : Nat)
-  | unique (i : Nat)
-  | at (i : Nat) (n : Int)
-
-def aStep? : Sexp → Option AStep
-  | .list [.atom "add", i, v] => do let i' ← ref? i; let v' ← valStr v; pure (.add i' v')
-  | .list [.atom "delete", i, v] => do let i' ← ref? i; let v' ← valStr v; pure (.delete i' v')
-  | .list [.atom "addAll", i, j] => do let i' ← ref? i; let j' ← ref? j; pure (.addAll i' j')
-  | .list [.atom "deleteAll", i, j] => do let i' ← ref? i; let j' ← ref? j; pure (.deleteAll i' j')
-  | .list [.atom "slice", i, a, b] => do let i' ← ref? i; let a' ← ref? a; let b' ← ref? b; pure (.slice i' a' b')
-  | .list [.atom "unique", i] => do let i' ← ref? i; pure (.unique i')
-  | .list [.atom "at", i, n] => do let i' ← ref? i; let n' ← n.int?; pure (.at i' n')
-  | .list (.atom "lit" :: vs) => (vs.mapM valStr).map .lit
+/-- a value with the structure `Flatten` looks at; `none` = not a value -/
+partial def avalOf : Sexp → Option AVal
+  | .atom s =>
+    match intAtom? (.atom s) with
+    | some i => some (.leaf i)
+    | none => (keyAtom? (.atom s)).map .leaf
+  | .list (.atom "a" :: xs) => (xs.mapM avalOf).map .arr
   | _ => none
 
-def arrStr (a : List String) : String := "(" ++ sp ("a" :: a) ++ ")"
+inductive AStep where
+  | op (name : String) (o : AOp AVal)
+  | flatten (i : Nat)
+
+def aStep? : Sexp → Option AStep
+  | .list [.atom "add", i, v] => do let i' ← ref? i; let v' ← avalOf v; pure (.op "add" (.add i' v'))
+  | .list [.atom "delete", i, v] => do let i' ← ref? i; let v' ← avalOf v; pure (.op "delete" (.delete i' v'))
+  | .list [.atom "find", i, v] => do let i' ← ref? i; let v' ← avalOf v; pure (.op "find" (.find i' v'))
+  | .list [.atom "addAll", i, j] => do let i' ← ref? i; let j' ← ref? j; pure (.op "addAll" (.addAll i' j'))
+  | .list [.atom "deleteAll", i, j] => do let i' ← ref? i; let j' ← ref? j; pure (.op "deleteAll" (.deleteAll i' j'))
+  | .list [.atom "slice", i, a, b] => do
+      let i' ← ref? i; let a' ← ref? a; let b' ← ref? b; pure (.op "slice" (.slice i' a' b'))
+  | .list [.atom "unique", i] => do let i' ← ref? i; pure (.op "unique" (.unique i'))
+  | .list [.atom "sort", i] => do let i' ← ref? i; pure (.op "sort" (.sort i'))
+  | .list [.atom "len", i] => do let i' ← ref? i; pure (.op "len" (.len i'))
+  | .list [.atom "flatten", i] => do let i' ← ref? i; pure (.flatten i')
+  | .list [.atom "eachSlice", i, n] => do let i' ← ref? i; let n' ← n.int?; pure (.op "eachSlice" (.eachSlice i' n'))
+  | .list [.atom "at", i, n] => do let i' ← ref? i; let n' ← n.int?; pure (.op "at" (.at i' n'))
+  | .list (.atom "lit" :: vs) => (vs.mapM avalOf).map fun vs' => .op "lit" (.lit vs')
+  | _ => none
+
+def arrStr (a : List AVal) : String := (AVal.arr a).text
+
+def textLe (x y : AVal) : Bool := decide (x.text ≤ y.text)
 
 def runArr (steps : List AStep) : String := Id.run do
-  let mut pool : Array (List String) := #[]
+  let mut pool : List (List AVal) := []
   let mut out : Array String := #[]
   for st in steps do
-    let mut res := ""
-    let mut made : Option (List String) := none
     match st with
-    | .lit vs => made := some vs; res := "lit"
-    | .add i v =>
+    | .flatten i =>
       match pool[i]? with
-      | none => res := "bad-ref"
-      | some a => made := some (Arr.add a v); res := "add"
-    | .addAll i j =>
-      match pool[i]?, pool[j]? with
-      | some a, some b => made := some (Arr.addAll a b); res := "addAll"
-      | _, _ => res := "bad-ref"
-    | .delete i v =>
-      match pool[i]? with
-      | none => res := "bad-ref"
-      | some a => made := some (Arr.delete id a v); res := "delete"
-    | .deleteAll i j =>
-      match pool[i]?, pool[j]? with
-      | some a, some b => made := some (Arr.deleteAll id a b); res := "deleteAll"
-      | _, _ => res := "bad-ref"
-    | .unique i =>
-      match pool[i]? with
-      | none => res := "bad-ref"
-      | some a => made := some (Arr.unique id a); res := "unique"
-    | .slice i x y =>
-      match pool[i]? with
-      | none => res := "bad-ref"
+      | none => out := out.push "bad-ref"
       | some a =>
-        match Arr.slice a x y with
-        | some s => made := some s; res := "slice"
-        | none => res := "skip"      -- bounds outside the value: a caller error, outside the property
-    | .at i n =>
-      match pool[i]? with
-      | none => res := "bad-ref"
-      | some a =>
-        res := "at=" ++ (if n < 0 then "_" else match Arr.atIdx a n.toNat with | some v => v | none => "_")
-    match made with
-    | none => out := out.push res
-    | some a =>
-      pool := pool.push a
-      out := out.push (res ++ " " ++ arrStr a ++ " N" ++ toString a.length)
-  return " | ".intercalate out.toList ++ " || " ++ " ; ".intercalate (pool.toList.map arrStr)
+        let r := AVal.flats a
+        pool := pool ++ [r]
+        out := out.push ("flatten " ++ arrStr r ++ " N" ++ toString r.length)
+    | .op name op =>
+      let (pool', obs) := stepAImpl AVal.text textLe pool op
+      let res := match obs with
+        | .made =>
+          match pool'.getLast? with
+          | some a => name ++ " " ++ arrStr a ++ " N" ++ toString a.length
+          | none => name
+        | .badRef => "bad-ref"
+        | .fault => "skip"                    -- Slice bounds outside the value: a caller error, outside the property
+        | .illegal => name ++ "=illegal"
+        | .got (some v) => name ++ "=" ++ v.text
+        | .got none => name ++ "=_"
+        | .num n => name ++ "=" ++ toString n
+        | .chunks cs => name ++ "=[" ++ sp (cs.map arrStr) ++ "]"
+        | .elems vs => name ++ "=" ++ arrStr vs
+      pool := pool'
+      out := out.push res
+  return " | ".intercalate out.toList ++ " || " ++ " ; ".intercalate (pool.map arrStr)
 
 def execArr (steps : List Sexp) : String :=
   match steps.mapM aStep? with
